@@ -5,13 +5,12 @@
 (* NUL, braces) and multi-byte characters, plus composed long literals; each  *)
 (* with the verdict of the RFC production and, when accepted, the RFC          *)
 (* decomposition the 'static value must show.                                 *)
-EXTENDS Parts, Lang, Vocab, TLC, Json
+EXTENDS Parts, Lang, Vocab, Rare, TLC, Json
 
 CONSTANTS MaxLen
 \* a : / ? # % 2 e-acute " \ LF NUL { }
 Alpha == {97, 58, 47, 63, 35, 37, 50, 233, 34, 92, 10, 0, 123, 125}
 MacroTypes == {"Uri", "UriRef", "Iri", "IriRef"}
-
 VARIABLES ty, w, composed
 vars == <<ty, w, composed>>
 
@@ -24,5 +23,7 @@ Grow == /\ ty # "none" /\ ~composed /\ Len(w) < MaxLen
         /\ \E c \in Alpha : w' = Append(w, c) /\ ty' = ty /\ composed' = FALSE /\ PrintT(ToJson(Case(ty, w')))
 Long == /\ ty # "none" /\ ~composed /\ w = <<>>
         /\ \E x \in VMacroLits : w' = x /\ ty' = ty /\ composed' = TRUE /\ PrintT(ToJson(Case(ty, x)))
-Next == Pick \/ Grow \/ Long
+Rare == /\ ty # "none" /\ ~composed /\ w = <<>>
+        /\ \E c \in RareChars : \E x \in RareTemplates(c) : w' = x /\ ty' = ty /\ composed' = TRUE /\ PrintT(ToJson(Case(ty, x)))
+Next == Pick \/ Grow \/ Long \/ Rare
 =============================================================================
